@@ -262,8 +262,15 @@ func (b *Builder) stmt(s ast.Stmt) {
 		b.jump(done)
 		b.start(done)
 	case *ast.ForStmt:
-		if rs := b.counterAsRange(s); rs != nil {
-			b.rangeStmt(rs)
+		if rs, butLast := b.counterAsRange(s); rs != nil {
+			if butLast {
+				// range over Y[:len(Y)-1], the term the source form Y[:len(Y)-1] has
+				y := b.expr(rs.X)
+				x := mk("slice", "", y, nil, mk("bin", "-", mk("call", "len", y), konst("1")))
+				b.rangeStmtX(rs, x)
+			} else {
+				b.rangeStmt(rs)
+			}
 			break
 		}
 		b.stmt(s.Init)
@@ -280,6 +287,8 @@ func (b *Builder) stmt(s ast.Stmt) {
 			b.jump(body)
 		}
 		b.loops = append(b.loops, loopCtx{brk: done, cont: post})
+		body.Note = "forbody"
+		body.LoopID = head.LoopID
 		b.start(body)
 		b.stmt(s.Body)
 		b.jump(post)
@@ -686,7 +695,11 @@ func isErrorType(t types.Type) bool {
 }
 
 func (b *Builder) rangeStmt(s *ast.RangeStmt) {
-	x := b.expr(s.X)
+	b.rangeStmtX(s, b.expr(s.X))
+}
+
+// rangeStmtX: the range loop s over the collection term x.
+func (b *Builder) rangeStmtX(s *ast.RangeStmt, x *Term) {
 	xt := b.tempVar("rng", nil)
 	b.assignVar(xt, x, s.Pos())
 	isFunc := false
@@ -1083,30 +1096,34 @@ func (b *Builder) staticCallee(call *ast.CallExpr) types.Object {
 
 // counterAsRange: `for i := 0; i < len(Y); i++ { body }` where the body assigns
 // neither i nor the root of Y is the range loop `for i := range Y { body }`.
-func (b *Builder) counterAsRange(s *ast.ForStmt) *ast.RangeStmt {
+func (b *Builder) counterAsRange(s *ast.ForStmt) (*ast.RangeStmt, bool) {
 	as, ok := s.Init.(*ast.AssignStmt)
 	if !ok || as.Tok != token.DEFINE || len(as.Lhs) != 1 || len(as.Rhs) != 1 {
-		return nil
+		return nil, false
 	}
 	id, ok := as.Lhs[0].(*ast.Ident)
 	if !ok {
-		return nil
+		return nil, false
 	}
 	if tv := b.info.Types[as.Rhs[0]]; tv.Value == nil || tv.Value.String() != "0" {
-		return nil
+		return nil, false
 	}
 	post, ok := s.Post.(*ast.IncDecStmt)
 	if !ok || post.Tok != token.INC {
-		return nil
+		return nil, false
 	}
+	butLast := false
 	y := b.P.counterLoopBound(b.info.Defs[id])
 	if y == nil {
-		return nil
+		if y = b.P.counterLoopButLast(b.info.Defs[id]); y == nil {
+			return nil, false
+		}
+		butLast = true
 	}
 	switch b.info.TypeOf(y).Underlying().(type) {
 	case *types.Slice, *types.Array:
 	default:
-		return nil
+		return nil, false
 	}
-	return &ast.RangeStmt{For: s.For, Key: id, Tok: token.DEFINE, X: y, Body: s.Body}
+	return &ast.RangeStmt{For: s.For, Key: id, Tok: token.DEFINE, X: y, Body: s.Body}, butLast
 }
